@@ -125,9 +125,9 @@ def run(ctx):
         dty = [x for x in o["log"] if x[0] == "alloc_dtype_from_argument"]
         ctx.ob("C08.vanloan.alloc_dtype" + sfx, "f", not dty, "stub-log", 0.0, "work matrix allocated as float64 independently of the arguments' dtypes" + pc,
                cex=None if not dty else dict(allocation=dty), native=None if not dty else _native_dtype(py))
-    _composition_lemma(ctx)
-    _joint(ctx, py)
-    _standin(ctx, py)
+    ctx.guard(_composition_lemma, ctx)
+    ctx.guard(_joint, ctx, py)
+    ctx.guard(_standin, ctx, py)
 
 
 def _composition_lemma(ctx):
